@@ -96,7 +96,10 @@ def tstep (t : TSt) (line : String) : TSt × String :=
     match n.toNat? with
     | some id =>
       match sidOfId s id with
-      | some sid => ({ t with pending := (id, sid) :: t.pending }, "ok" ++ fl s)
+      | some sid =>
+        -- the announcing session must be the one the model believes holds the guard
+        if s.holders.contains sid then ({ t with pending := (id, sid) :: t.pending }, "ok" ++ fl s)
+        else ({ t with pending := (id, sid) :: t.pending }, s!"bad pre: session {sid} does not hold the guard in the model")
       | none => (t, "bad pre: ID never issued in the model")
     | none => (t, "bad-op")
   | ["rel", n, e] =>
